@@ -15,8 +15,8 @@ CONSTANTS
 
 def plan(tier):
     if tier == "quick":
-        return [("wide", 3), ("tabs", 3), ("core", 4), ("defs", 3)]
-    return [("wide", 4), ("tabs", 4), ("core", 6), ("defs", 4)]
+        return [("wide", 3), ("tabs", 3), ("core", 4), ("defs", 3), ("html", 3)]
+    return [("wide", 4), ("tabs", 4), ("core", 6), ("defs", 4), ("html", 4)]
 
 
 def lemma_job(name, invs, tier):
